@@ -55,11 +55,13 @@ structure TagBlock where
 def COLON : Byte := 58
 def DASH : Byte := 45
 
-/-- `int(str)` on the UTF-8 bytes of a Python `str`: like `int(bytes)` but the separator controls
-0x1c–0x1f also count as surrounding whitespace; text with non-ASCII characters is rejected
-(Python would additionally accept non-ASCII decimal digits and Unicode spaces, e.g. `'١٢'`; the
-harness never generates those — DESIGN §3). -/
-def strSpaceToAscii (s : Bytes) : Bytes := s.map fun b => if 0x1c ≤ b ∧ b ≤ 0x1f then 32 else b
+/-- `int(str)` on the UTF-8 bytes of a Python `str`: for a pure-ASCII string CPython parses the
+characters as they are (the conversion of Unicode spaces and digits to ASCII is skipped for ASCII
+strings, so the separator controls 0x1c–0x1f, which `str.isspace()` accepts, are *not* whitespace
+here — probed on CPython 3.12: `int('\x1c7')` raises); text with non-ASCII characters is rejected by
+the model (Python would accept non-ASCII decimal digits and Unicode spaces, e.g. `'١٢'`, and then also
+0x1c–0x1f; the harness never generates those — DESIGN §3). -/
+def strSpaceToAscii (s : Bytes) : Bytes := s
 
 def pyIntStr10 (s : Bytes) : Option Int := if s.any (· ≥ 128) then none else pyInt10 (strSpaceToAscii s)
 def pyIntStr16 (s : Bytes) : Option Int := if s.any (· ≥ 128) then none else pyInt16 (strSpaceToAscii s)
